@@ -47,6 +47,7 @@ func runC09(c *Ctx) {
 		return
 	}
 	c09InProcess(c)
+	c09E2E(c)
 }
 
 type c09Case struct {
